@@ -109,6 +109,28 @@ CHECKS = {
             "property; parameter-name seeds of the provenance typing are stated assumptions.",
             "provenance/dimension typing lint over ast + apply_ufunc site rules + clang-AST definite-initialisation rules",
             "DESIGN.md section 4 C06"),
+    "C09": (True, "other",
+            "Decides the rule each split applies, structurally: the wave-age mask is the single comparison celerity(freq, "
+            "depth) <= agefac*wspd*cos(D2R*(dir - wdir)) (operator, operands, no extra condition) and PTM4 masks one object "
+            "by it and by its exact complement; bounding boxes: all-pairs overlap check raising ValueError before masking, "
+            "closed four-sided masks, complement remainder, omitted limits defaulting to order-insensitive min()/max(); PTM5: "
+            "closed cutoff comparators on one object, regrid only off-grid; band split: bracketing-node weights and spacing, "
+            "label slicing, stats(limits) delegating to split; plus order provenance of directions.",
+            "exact conservation in floating point and boundary bins where celerity equals the wind component up to rounding "
+            "are not decided.",
+            "custom ast structural rules (comparator/operand analysis, CFG ordering, default-agreement cross-check) + order provenance",
+            "DESIGN.md section 4 C09"),
+    "C19": (True, "other",
+            "Decides the invariants of identifier bookkeeping from the shape of the code: every identifier store comes from "
+            "the running counter (scalar slot, immediately incremented) or from the previous column at the locally matched "
+            "row, so identifiers are 0..N-1 in order of first appearance, unique within a step and never reappear; the "
+            "availability list is read by the candidate filter and the matched predecessor itself is retired; sentinel "
+            "constants agree between matcher, propagator and _FillValue; the admissibility mask is the conjunction of the "
+            "three threshold tests with sea thresholds for partition 0 and the threshold indexed at the interval's start; "
+            "sites are vectorised.",
+            "optimality of the greedy matching and behaviour for crossing systems beyond these invariants are not decided.",
+            "custom ast typestate/pairing rules (store provenance, acquire-release pairing, sibling constant agreement)",
+            "DESIGN.md section 4 C19"),
 }
 
 NA_DEFAULT = "check under construction in this build round (see DESIGN.md section 8)"
